@@ -19,6 +19,7 @@ ASSUMPTIONS = ["dE_pot/dt is computed by Richardson central differences of the r
                "revolute states lie on the joint manifold (constructed by an independent model of the joint), as the property states",
                "k, d, eta log-uniform in [1e-3, 1e3]"]
 REQUIRED_MONITORS = ["ENERGY:conservative", "ENERGY:passive", "COMPLIANCE:residual", "E_pot:succeeds", "ENERGY:gyroscopic"]
+FORMAT_TWIN = True          # ambient monitor: every System matrix is also requested in the other documented formats (vlib/formattwin.py)
 META = {
     "level_text": "Exploration: energy bookkeeping on the real System methods (E_pot, h, W_c, la_c, c) of generated systems at generated states: conservative elements do exactly the work their energy predicts, dissipative ones never create energy, compliance form and force form describe the same force. Held on the systems and states generated.",
     "level_note": "float64; energy rate by finite differences of System.E_pot with measured uncertainty; revolute states restricted to the joint manifold.",
